@@ -32,6 +32,8 @@ _SPEC = None
 
 def sequences(spec):
     """All op sequences of the space, shortest first."""
+    if spec.get("explicit") is not None:
+        return [tuple(tuple(o) for o in q) for q in spec["explicit"]]
     nv, maxl, classes = spec["nv"], spec["maxl"], spec["classes"]
     minl = spec.get("minl", 0)
     loops = spec.get("self_loops", True)
@@ -181,7 +183,7 @@ def explore(spec, per_state, *, seed=0, workers=None, log=None, time_cap=None):
     res.wall = time.time() - t0
     res.samples = [list(map(list, seqs[i])) for i in (len(seqs) // 3, len(seqs) // 2, len(seqs) - 1) if seqs]
     if log:
-        log(f"  space {spec}: states={res.states} evaluations={res.evaluations} skipped={res.skipped} "
+        log(f"  space { {k: v for k, v in spec.items() if k != 'explicit'} }: states={res.states} evaluations={res.evaluations} skipped={res.skipped} "
             f"violations={len(res.viols)} t={res.wall:.1f}s")
     return res
 
@@ -205,3 +207,61 @@ def merge_coverage(results, rule, extra=None):
     if extra:
         cov.update(extra)
     return cov
+
+
+# --------------------------------------------------------------------------
+# graph families: deterministic shapes at a ladder of sizes (the complement of the exhaustive small
+# spaces for behaviour that depends on a size threshold)
+
+FAMILY_SHAPES = ("chain-D", "chain-U", "ring-D", "star-out", "star-in", "star-mixed", "bitree-U",
+                 "fan-parallel", "two-level", "complete-D")
+
+
+def family_sequence(shape, n):
+    """op sequence building `shape` on n vertices (v0..v(n-1)); None if the shape is not defined for n"""
+    ops = []
+    if shape == "chain-D":
+        ops = [("new", "D", i, i + 1) for i in range(n - 1)]
+    elif shape == "chain-U":
+        ops = [("new", "U", i, i + 1) for i in range(n - 1)]
+    elif shape == "ring-D":
+        ops = [("new", "D", i, (i + 1) % n) for i in range(n)]
+    elif shape == "star-out":
+        ops = [("new", "D", 0, k) for k in range(1, n)]
+    elif shape == "star-in":
+        ops = [("new", "D", k, 0) for k in range(1, n)]
+    elif shape == "star-mixed":
+        ops = [("new", "D" if k % 3 else "U", 0 if k % 2 else k, k if k % 2 else 0) for k in range(1, n)]
+    elif shape == "bitree-U":
+        ops = [("new", "U", (i - 1) // 2, i) for i in range(1, n)]
+    elif shape == "fan-parallel":
+        # n-1 links from v0 alternating between v1 and v2 (repeated neighbours), the rest isolated
+        if n < 3:
+            return None
+        ops = [("new", "D", 0, 1 + (k % 2)) for k in range(n - 1)]
+    elif shape == "two-level":
+        # v0 -> v1..vm, and each v_k -> v_(m+k): vertices at hop distance 2 with different parents
+        m = (n - 1) // 2
+        if m < 2:
+            return None
+        ops = [("new", "D", 0, k) for k in range(1, m + 1)] + [("new", "D", k, m + k) for k in range(1, m + 1)]
+    elif shape == "complete-D":
+        if n > 6:
+            return None
+        ops = [("new", "D", i, j) for i in range(n) for j in range(n) if i != j]
+    else:
+        raise ValueError(shape)
+    return tuple(ops)
+
+
+def family_specs(sizes, shapes=FAMILY_SHAPES, extra=None):
+    """one spec per size, each carrying the explicit sequences of every shape defined for that size"""
+    out = []
+    for n in sizes:
+        seqs = [s for s in (family_sequence(sh, n) for sh in shapes) if s]
+        spec = dict(nv=n, maxl=max(len(s) for s in seqs), classes=("D", "U"), explicit=seqs,
+                    family=[sh for sh in shapes if family_sequence(sh, n)])
+        if extra:
+            spec.update(extra)
+        out.append(spec)
+    return out
